@@ -35,6 +35,10 @@ class Unsupported(BaseException):
     """The engine met a construct it does not model: the obligation is undecided."""
 
 
+class UnsupportedUnit(Unsupported):
+    """... and exploring further paths of the unit is pointless (a structural misfit, not a property of one path)."""
+
+
 def _bvv(v):
     if not (-(1 << (W - 1)) <= v < (1 << (W - 1))):
         raise Unsupported("integer constant %d outside the %d-bit model" % (v, W))
